@@ -68,4 +68,8 @@ func (c *memberEventCoalescer) Flush(outCh chan<- Event) {
 	for _, event := range events {
 		outCh <- *event
 	}
+
+	// Reset the pending events, so that a member is only reported again
+	// once a new event has been received for it
+	c.latestEvents = make(map[string]coalesceEvent)
 }
